@@ -364,3 +364,62 @@ Section PQProofs.
     eapply G, R_empty.
   Qed.
 End PQProofs.
+
+(* ---------- item-level facts used by the simulation proofs ---------- *)
+Section PQFacts.
+  Variable V : Type.
+
+  Lemma peek_item_spec (q : pq V) m :
+    pq_peek_item q = Some m ->
+    In m (items q) /\ forall y, In y (items q) -> key_le (ikey m) (ikey y).
+  Proof.
+    unfold pq_peek_item. destruct (items q) as [|c l] eqn:E; [discriminate|].
+    intros H; injection H as <-. split; [apply min_item_in|].
+    intros y Hy. pose proof (min_item_min V c l y Hy) as N.
+    apply key_not_lt_le. intros K. apply N. left. exact K.
+  Qed.
+
+  Lemma in_remove_epoch (l : list (item V)) e y : In y (remove_epoch e l) -> In y l.
+  Proof.
+    induction l as [|x r IH]; cbn [remove_epoch]; [auto|].
+    destruct (N.eqb _ _); cbn; [auto|]. intros [H|H]; auto.
+  Qed.
+
+  Lemma remove_epoch_length (l : list (item V)) m :
+    In m l -> S (length (remove_epoch (iepoch m) l)) = length l.
+  Proof.
+    induction l as [|x r IH]; cbn [remove_epoch]; [intros []|].
+    destruct (N.eqb_spec (iepoch x) (iepoch m)) as [E|E]; cbn [length]; [auto|].
+    intros [->|H]; [congruence|]. rewrite IH; auto.
+  Qed.
+
+  Lemma pq_peek_spec (q : pq V) k a :
+    pq_peek q = Some (k, a) ->
+    exists m, In m (items q) /\ ikey m = k /\ ival m = a /\
+              forall y, In y (items q) -> key_le k (ikey y).
+  Proof.
+    unfold pq_peek. destruct (pq_peek_item q) as [m|] eqn:E; [|discriminate].
+    intros H; injection H as <- <-. apply peek_item_spec in E. destruct E as [A B]. eauto.
+  Qed.
+
+  Lemma pq_pull_some (q : pq V) k a q' :
+    pq_pull q = (Some (k, a), q') ->
+    pq_peek q = Some (k, a) /\
+    (forall y, In y (items q') -> In y (items q)) /\
+    S (length (items q')) = length (items q) /\ next_epoch q' = next_epoch q.
+  Proof.
+    unfold pq_pull, pq_peek. destruct (pq_peek_item q) as [m|] eqn:E; [|discriminate].
+    intros H; injection H as <- <- <-. cbn [items next_epoch]. split; auto.
+    apply peek_item_spec in E. destruct E as [A B].
+    split; [intros y; apply in_remove_epoch|]. split; auto. apply remove_epoch_length; auto.
+  Qed.
+
+  Lemma pq_pull_none (q : pq V) q' : pq_pull q = (None, q') -> q' = q /\ items q = [].
+  Proof.
+    unfold pq_pull, pq_peek_item. destruct (items q) eqn:E; [|discriminate].
+    intros H; injection H as <-. auto.
+  Qed.
+
+  Lemma pq_peek_none (q : pq V) : pq_peek q = None -> items q = [].
+  Proof. unfold pq_peek, pq_peek_item. destruct (items q); [auto|discriminate]. Qed.
+End PQFacts.
